@@ -80,11 +80,22 @@ def check_un(tr, fn, code):
 
 
 def mk_struct(kind, n, generic=False):
-    fs = [F("f%d" % i if kind == "named" else None, "A" if (generic and i == 0) else "W") for i in range(n)]
+    fs = [F(("w", "c", "x", "a", "m")[i] if kind == "named" else None,  # names not in alphabetical order: declaration order counts
+           "A" if (generic and generic != "macro" and i == 0) else "W") for i in range(n)]
     if generic == "self":
         # an inline bound that mentions `Self`: in the impls for `&T<A>` it must still mean `T<A>` (implemented for exactly that type below)
         t = TypeSpec("struct", [Variant(None, kind, fs)], [("A: Bnd<Self>", "W")], shape="%s%d-generic-self-bound" % (kind, n))
         t.post_items = "impl Bnd<T<W>> for W {}\n"
+        return t
+    if generic == "macro":
+        # the struct comes out of a macro_rules! definition that receives its field types as identifiers: the receiver tokens of the generated methods must resolve all the same
+        t = TypeSpec("struct", [Variant(None, kind, fs)], None, shape="%s%d-from-macro_rules" % (kind, n))
+        t.via_macro = True
+        return t
+    if generic == "self-nested":
+        # `Self` inside the generic arguments of another type in the declared bound (and inside a tuple / reference): every occurrence means `T<A>` in the impls for `&T<A>` as well
+        t = TypeSpec("struct", [Variant(None, kind, fs)], [("A: Bnd<Option<Self>> + Bnd<(u8, [Self; 1])>", "W")], shape="%s%d-generic-nested-self-bound" % (kind, n))
+        t.post_items = "impl Bnd<Option<T<W>>> for W {}\nimpl Bnd<(u8, [T<W>; 1])> for W {}\n"
         return t
     return TypeSpec("struct", [Variant(None, kind, fs)], [("A", "W")] if generic else None,
                     shape="%s%d%s" % (kind, n, "-generic" if generic else ""))
@@ -116,7 +127,12 @@ def build(name, t, what, tr, fn, code, entry, decor="", co=()):
     src = e1.HEADER.format(pid=PID, name=name, desc=desc)
     pre = ["#[derive_ex(%s)]" % la] if entry == "attr" else ["#[derive(Ex)]", "#[derive_ex(%s)]" % la]
     pre = pre[:1] + ["#[derive_ex(%s)]" % c for c in stacked] + pre[1:] if entry == "derive" else pre + ["#[derive_ex(%s)]" % c for c in stacked]
-    src += t.item_text(pre) + "\n\n" + getattr(t, "post_items", "") + struct_helpers(t) + "\n" + t.mk_fn() + "\n"
+    if getattr(t, "via_macro", False):
+        src += "macro_rules! mk_t {\n    ($n:ident; $($f:ident : $t:ident),*) => {\n        %s\n        pub struct $n { $(pub $f: $t),* }\n    };\n}\nmk_t!(%s; %s);\n\n" % (
+            "\n        ".join(pre), t.name, ", ".join("%s: %s" % (f.name, f.ty) for f in fs))
+        src += struct_helpers(t) + "\n" + t.mk_fn() + "\n"
+    else:
+        src += t.item_text(pre) + "\n\n" + getattr(t, "post_items", "") + struct_helpers(t) + "\n" + t.mk_fn() + "\n"
     body = {"bin": check_bin, "assign": check_assign, "un": check_un}[what](tr, fn, code)
     src += "pub fn check<S: Src>(s: &mut S) {\n%s\n}\n\n" % "\n".join(body) + e1.harness(unwind=6)
     return kani_runner.Program(name, src, "%s|%s|%s" % (la, t.shape, entry), desc, nontrivial=True)
@@ -134,6 +150,8 @@ def run(tier):
                 cands.append((sh, op, "attr", ""))
         for op in ops:
             cands.append((("named", 2, "self"), op, "attr", ""))
+            cands.append((("named", 2, "self-nested"), op, "attr", ""))
+            cands.append((("named", 2, "macro"), op, "attr", ""))
             cands.append((("named", 2, False), op, "derive", ""))
             for d in DECOR[1:]:
                 cands.append((("named", 2, False), op, "attr", d))
@@ -149,6 +167,11 @@ def run(tier):
         cands.append((("named", 2, False), ops[9], "derive", ""))
         for op in (ops[0], ops[13], ops[20], ops[21]):
             cands.append((("named", 2, "self"), op, "attr", ""))
+        for op in (ops[1], ops[12], ops[20]):
+            cands.append((("named", 2, "self-nested"), op, "attr", ""))
+        for op in (ops[0], ops[11], ops[21]):
+            cands.append((("named", 2, "macro"), op, "attr", ""))
+        cands.append((("named", 2, "macro"), ops[2], "derive", ""))
         for i, d in enumerate(DECOR[1:]):
             for op in (ops[0], ops[10 + (i % 10)], ops[20 + (i % 2)], ops[rnd.randrange(22)]):
                 cands.append((("named", 2, False), op, "attr", d))
